@@ -143,16 +143,106 @@ TABLE_CODE = {'NEUTRAL_FRAGMENT_START_COMPOSITIONS': 0, 'NEUTRAL_FRAGMENT_END_CO
               'NEUTRAL_FRAGMENT_COMPOSITION_ADJUSTMENTS': 2, 'FRAGMENT_ION_COMPOSITIONS': 3}
 
 
+_RUNTIME_SNIPPET = r"""
+import json, warnings
+warnings.simplefilter('ignore')
+from peptacular import constants as K
+names = ['AA_COMPOSITIONS', 'FRAGMENT_ION_COMPOSITIONS', 'FRAGMENT_ION_BASE_CHARGE_ADDUCTS', 'NEUTRAL_FRAGMENT_START_COMPOSITIONS',
+         'NEUTRAL_FRAGMENT_END_COMPOSITIONS', 'NEUTRAL_FRAGMENT_COMPOSITION_ADJUSTMENTS', 'FRAGMENT_ION_COMPOSITION_ADJUSTMENTS',
+         'AVERAGINE_RATIOS', 'PROTON_MASS', 'ELECTRON_MASS', 'NEUTRON_MASS', 'C13_NEUTRON_MASS', 'PEPTIDE_AVERAGINE_NEUTRON_MASS']
+out = {}
+for n in names:
+    v = getattr(K, n)
+    if isinstance(v, dict):
+        out[n] = [[k, ([[kk, repr(vv)] for kk, vv in x.items()] if isinstance(x, dict) else x)] for k, x in v.items()]
+        if n == 'AVERAGINE_RATIOS':
+            out[n] = [[k, repr(x)] for k, x in v.items()]
+    else:
+        out[n] = repr(v)
+for n in ['FORWARD_ION_TYPES', 'BACKWARD_ION_TYPES', 'INTERNAL_ION_TYPES', 'IMMONIUM_ION_TYPES']:
+    out[n] = sorted(getattr(K, n))
+print(json.dumps(out))
+"""
+
+BY_VALUE = []      # tables emitted from the evaluated module instead of the source text, in the last translate() call
+
+
+def runtime_constants(repo):
+    """the tables as the tree under test computes them at import (fresh interpreter, nothing of the harness imported)"""
+    import json
+    import subprocess
+    env = {k: v for k, v in os.environ.items() if k != 'PYTHONPATH'}
+    env['PYTHONPATH'] = os.path.join(repo, 'src')
+    env['PYTHONDONTWRITEBYTECODE'] = '1'
+    p = subprocess.run(['/venv/bin/python', '-W', 'ignore', '-c', _RUNTIME_SNIPPET], cwd='/tmp', env=env, capture_output=True, text=True)
+    if p.returncode != 0:
+        raise core.InfraError('translator: the tree under test cannot be imported: ' + p.stderr[-800:])
+    return json.loads(p.stdout.strip().split('\n')[-1])
+
+
+def _frac(t):
+    return Fraction(Decimal(str(t).strip()))
+
+
+def _same_dd(a, b):
+    """two dict-of-dicts given as ordered lists [(key, [(k, numtext)])]: same keys in the same order, same numbers"""
+    try:
+        return [(k, [(kk, _frac(v)) for kk, v in d]) for k, d in a] == [(k, [(kk, _frac(v)) for kk, v in d]) for k, d in b]
+    except Exception:  # noqa
+        return False
+
+
+def _merge(d1, d2):
+    d = {}
+    for k, v in d1:
+        d[k] = _frac(v)
+    for k, v in d2:
+        d[k] = d.get(k, 0) + _frac(v)
+    return [(k, v) for k, v in d.items() if v != 0]
+
+
 def gen_constants(repo):
-    cr = ConstReader(os.path.join(repo, 'src', 'peptacular', 'constants.py'))
+    """source text first (ast); every table is then compared with what the module evaluates to at import and emitted BY VALUE when
+    the text cannot be read literally or does not say what the module computes (comprehensions, later `.update(...)`, helper
+    calls ...) - so that the kernel-evaluated obligations are always about the tables the code uses NOW"""
+    del BY_VALUE[:]
+    rt = runtime_constants(repo)
+    try:
+        cr = ConstReader(os.path.join(repo, 'src', 'peptacular', 'constants.py'))
+    except Exception:  # noqa
+        cr = None
     L = ['/-! GENERATED by harness/translate_tables.py from src/peptacular/constants.py - do not edit.',
-         'Keys are base-256 packed ASCII strings; numbers are the exact decimals of the source text. -/',
+         'Keys are base-256 packed ASCII strings; numbers are the exact decimals of the source text (of `repr` for a table',
+         'emitted by value, see the `by value` remarks below). -/',
          'namespace Gen', '']
+
+    def by_value(py):
+        BY_VALUE.append(py)
+        L.append(f'-- `{py}`: emitted BY VALUE (the source text is not a literal of the expected shape, or differs from the evaluated module)')
+
     for lean, py in (('protonMass', 'PROTON_MASS'), ('electronMass', 'ELECTRON_MASS'), ('neutronMass', 'NEUTRON_MASS'),
                      ('c13NeutronMass', 'C13_NEUTRON_MASS'), ('averagineNeutronMass', 'PEPTIDE_AVERAGINE_NEUTRON_MASS')):
+        try:
+            txt = cr.number(py)
+            if _frac(txt) != _frac(rt[py]):
+                raise ValueError('differs')
+        except Exception:  # noqa
+            by_value(py)
+            txt = rt[py]
         L.append(f'/-- `{py}` -/')
-        L.append(f'def {lean} : Rat := {rat(cr.number(py))}')
+        L.append(f'def {lean} : Rat := {rat(txt)}')
     L.append('')
+
+    def dd(py):
+        rv = [(k, [(kk, v) for kk, v in d]) for k, d in rt[py]]
+        try:
+            av = cr.dict_of_dicts(py)
+            if not _same_dd(av, rv):
+                raise ValueError('differs')
+            return av
+        except Exception:  # noqa
+            by_value(py)
+            return rv
 
     def table(lean, py, rows):
         L.append(f'/-- `{py}` -/')
@@ -161,39 +251,74 @@ def gen_constants(repo):
         L.append(']')
         L.append('')
 
-    table('aaComp', 'AA_COMPOSITIONS', cr.dict_of_dicts('AA_COMPOSITIONS'))
-    table('ionComp', 'FRAGMENT_ION_COMPOSITIONS', cr.dict_of_dicts('FRAGMENT_ION_COMPOSITIONS'))
-    table('neutralStart', 'NEUTRAL_FRAGMENT_START_COMPOSITIONS', cr.dict_of_dicts('NEUTRAL_FRAGMENT_START_COMPOSITIONS'))
-    table('neutralEnd', 'NEUTRAL_FRAGMENT_END_COMPOSITIONS', cr.dict_of_dicts('NEUTRAL_FRAGMENT_END_COMPOSITIONS'))
+    tabs = {}
+    for lean, py in (('aaComp', 'AA_COMPOSITIONS'), ('ionComp', 'FRAGMENT_ION_COMPOSITIONS'),
+                     ('neutralStart', 'NEUTRAL_FRAGMENT_START_COMPOSITIONS'), ('neutralEnd', 'NEUTRAL_FRAGMENT_END_COMPOSITIONS')):
+        tabs[py] = dd(py)
+        table(lean, py, tabs[py])
+    try:
+        rows = cr.dict_of_strs('FRAGMENT_ION_BASE_CHARGE_ADDUCTS')
+        if rows != [(k, v) for k, v in rt['FRAGMENT_ION_BASE_CHARGE_ADDUCTS']]:
+            raise ValueError('differs')
+    except Exception:  # noqa
+        by_value('FRAGMENT_ION_BASE_CHARGE_ADDUCTS')
+        rows = [(k, v) for k, v in rt['FRAGMENT_ION_BASE_CHARGE_ADDUCTS']]
     L.append('/-- `FRAGMENT_ION_BASE_CHARGE_ADDUCTS` (adduct strings as code points) -/')
     L.append('def baseAdducts : List (Nat × List Nat) := [')
-    rows = cr.dict_of_strs('FRAGMENT_ION_BASE_CHARGE_ADDUCTS')
     for i, (k, v) in enumerate(rows):
         if '\n' in v:
             raise core.InfraError('translator: newline in adduct string')
         L.append(f'  ({_k(k)}, [{", ".join(str(ord(c)) for c in v)}]){"," if i + 1 < len(rows) else ""}  -- {v!r}')
     L.append(']')
     L.append('')
-    for lean, py in (('neutralAdjRecipe', 'NEUTRAL_FRAGMENT_COMPOSITION_ADJUSTMENTS'),
-                     ('ionAdjRecipe', 'FRAGMENT_ION_COMPOSITION_ADJUSTMENTS')):
+    derived = {}
+    for lean, py in (('neutralAdj', 'NEUTRAL_FRAGMENT_COMPOSITION_ADJUSTMENTS'), ('ionAdj', 'FRAGMENT_ION_COMPOSITION_ADJUSTMENTS')):
+        rv = [(k, [(kk, v) for kk, v in d]) for k, d in rt[py]]
+        recipe = None
+        try:
+            rec = cr.recipes(py)
+            src = dict(tabs)
+            src.update(derived)
+            ev = []
+            for k, (t1, k1), (t2, k2) in rec:
+                if t1 not in TABLE_CODE or t2 not in TABLE_CODE:
+                    raise ValueError('unknown table')
+                ev.append((k, [(kk, str(v)) for kk, v in _merge(dict(src[t1])[k1], dict(src[t2])[k2])]))
+            if not _same_dd(ev, rv):
+                raise ValueError('differs')
+            recipe = rec
+        except Exception:  # noqa
+            by_value(py)
+        derived[py] = rv
         L.append(f'/-- `{py}`: entry = merge_dicts(table₁[k₁], table₂[k₂]); table codes 0 = NEUTRAL_FRAGMENT_START_COMPOSITIONS,')
-        L.append('1 = NEUTRAL_FRAGMENT_END_COMPOSITIONS, 2 = NEUTRAL_FRAGMENT_COMPOSITION_ADJUSTMENTS, 3 = FRAGMENT_ION_COMPOSITIONS -/')
-        L.append(f'def {lean} : List (Nat × (Nat × Nat) × (Nat × Nat)) := [')
-        rows = []
-        for k, (t1, k1), (t2, k2) in cr.recipes(py):
-            if t1 not in TABLE_CODE or t2 not in TABLE_CODE:
-                raise core.InfraError(f'translator: unknown table in recipe of {py}[{k}]')
-            rows.append(f'  ({_k(k)}, ({TABLE_CODE[t1]}, {_k(k1)}), ({TABLE_CODE[t2]}, {_k(k2)}))')
-        L.append(',\n'.join(rows))
+        L.append('1 = NEUTRAL_FRAGMENT_END_COMPOSITIONS, 2 = NEUTRAL_FRAGMENT_COMPOSITION_ADJUSTMENTS, 3 = FRAGMENT_ION_COMPOSITIONS')
+        L.append('(empty when the table is emitted by value) -/')
+        L.append(f'def {lean}Recipe : List (Nat × (Nat × Nat) × (Nat × Nat)) := [')
+        if recipe is not None:
+            L.append(',\n'.join(f'  ({_k(k)}, ({TABLE_CODE[t1]}, {_k(k1)}), ({TABLE_CODE[t2]}, {_k(k2)}))' for k, (t1, k1), (t2, k2) in recipe))
         L.append(']')
+        L.append(f'/-- `{py}` by value: `some` = what the module evaluates to (used instead of the recipe) -/')
+        if recipe is not None:
+            L.append(f'def {lean}ByValue : Option (List (Nat × List (Nat × Rat))) := none')
+        else:
+            L.append(f'def {lean}ByValue : Option (List (Nat × List (Nat × Rat))) := some [')
+            L.append(',\n'.join(f'  ({_k(k)}, {_comp(d)})' for k, d in rv))
+            L.append(']')
         L.append('')
+    try:
+        av = cr.flat_dict(cr.assign['AVERAGINE_RATIOS'])
+        if [(k, _frac(v)) for k, v in av] != [(k, _frac(v)) for k, v in rt['AVERAGINE_RATIOS']]:
+            raise ValueError('differs')
+    except Exception:  # noqa
+        by_value('AVERAGINE_RATIOS')
+        av = [(k, v) for k, v in rt['AVERAGINE_RATIOS']]
     L.append('/-- `AVERAGINE_RATIOS` -/')
-    L.append(f'def averagine : List (Nat × Rat) := {_comp(cr.flat_dict(cr.assign["AVERAGINE_RATIOS"]))}')
+    L.append(f'def averagine : List (Nat × Rat) := {_comp(av)}')
     L.append('')
     for lean, py in (('forwardIonTypes', 'FORWARD_ION_TYPES'), ('backwardIonTypes', 'BACKWARD_ION_TYPES'),
                      ('internalIonTypes', 'INTERNAL_ION_TYPES'), ('immoniumIonTypes', 'IMMONIUM_ION_TYPES')):
-        L.append(f'/-- `{py}` (sorted) -/')
-        L.append(f'def {lean} : List Nat := [{", ".join(_k(s) for s in cr.str_set(py))}]')
+        L.append(f'/-- `{py}` (sorted; evaluated module) -/')
+        L.append(f'def {lean} : List Nat := [{", ".join(_k(x) for x in rt[py])}]')
     L.append('')
     L.append('end Gen')
     return '\n'.join(L) + '\n'
@@ -350,11 +475,36 @@ def translate(chk=None, repo=None):
         for mod, fn in (('Constants', gen_constants), ('Elements', gen_elements), ('ElementMasses', gen_element_masses)):
             if _write_if_changed(os.path.join(GEN_DIR, mod + '.lean'), fn(repo)):
                 changed.append('PeptVerif.Generated.' + mod)
+    if changed and os.environ.get('VERIF_REPO') and os.path.realpath(repo) != os.path.realpath('/repo'):
+        _restore_at_exit()
     if chk is not None:
         chk.generated_changed += changed
+        if BY_VALUE:
+            chk.generated_changed += ['by_value:' + x for x in BY_VALUE]
+            chk.notes.append({'tables_emitted_by_value': list(BY_VALUE)})
         chk.trusted.append('harness/translate_tables.py: constants.py literals (ast) and data/chem.txt (own text reader) -> '
                            'Generated/Constants.lean, Generated/Elements.lean; derived tables are recomputed by the model')
     return changed
+
+
+_RESTORE = []
+
+
+def _restore_at_exit():
+    """a run against a scratch tree ($VERIF_REPO) rewrites the shared Generated/*.lean from that tree: put the tables of /repo back
+    when the interpreter exits, so that other agents' builds never see the scratch state for longer than the run itself"""
+    if _RESTORE:
+        return
+    _RESTORE.append(True)
+    import atexit
+
+    def back():
+        try:
+            translate(None, '/repo')
+        except Exception:  # noqa
+            pass
+
+    atexit.register(back)
 
 
 if __name__ == '__main__':
